@@ -8,6 +8,7 @@ CONSTANTS
   MaxArgs = 1
   Commands = {"check", "tokenize"}
   Encodings = {"utf8", "utf8bom", "utf16le", "utf16be", "cp1252"}
+  Verbosities = {0}
   Emit = TRUE
 INVARIANTS ExitOkDiagAgree EchoTokenizeExit EncodingTransparent EmitReplay
 CHECK_DEADLOCK FALSE
